@@ -713,6 +713,9 @@ func (rn *runner) probeRun(ref *progen.Ref, o *runOut, sc *scenario) {
 func (rn *runner) report(prog int, sp *progen.Spec, c Case, o *runOut, f finding, ref *progen.Ref) {
 	key := f.sig
 	rn.out.SigCounts[key]++
+	if len(rn.job.Programs) <= 32 {
+		key += "|" + c.Pkg // small jobs (program minimisation): one report per program
+	}
 	if rn.sigSeen[key] >= 2 {
 		return
 	}
